@@ -60,6 +60,7 @@ class Synth:
             for nm in ("g_N", "gamma_F", "gamma_F_q"):
                 setattr(self, nm, None)
         self.q0 = 0.5 * _B("q0", (nq,), k)
+        self._qref = self.q0.copy()  # configuration at which g, g_S, ... vanish
         self.u0 = np.zeros(nu)
         self.name = name
         self._M0 = 3.0 * np.eye(nu) + 0.1 * (_B("M", (nu, nu), k) + _B("M", (nu, nu), k).T)
@@ -74,7 +75,7 @@ class Synth:
         return s
 
     def _dq(self, tag, q):
-        return float(_B(tag + "dq", (self.nq,), self.k) @ (np.asarray(q, float) - self.q0))
+        return float(_B(tag + "dq", (self.nq,), self.k) @ (np.asarray(q, float) - self._qref))
 
     def assembler_callback(self):
         self.qDOF = self.my_qDOF.copy()
@@ -92,7 +93,7 @@ class Synth:
 
     def step_callback(self, t, q, u):
         # a projection-like map: identity at (q0, u0 = 0), non-trivial elsewhere
-        q[0] = self.q0[0] + 0.5 * (q[0] - self.q0[0])
+        q[0] = self._qref[0] + 0.5 * (q[0] - self._qref[0])
         u[-1] = 0.25 * u[-1]
         return q, u
 
@@ -123,7 +124,8 @@ class Synth:
         return _B("la_c", (self.nla_c,), self.k) * self._s("la_c", t, q, u)
 
     def c(self, t, q, u, la_c):
-        return _B("c", (self.nla_c,), self.k) * self._s("c", t, q, u, la=la_c)
+        # vanishes at la_c = la_c(t, q, u) (consistent force law), generic elsewhere
+        return (_B("c", (self.nla_c, self.nla_c), self.k) @ (np.asarray(la_c, float) - self.la_c(t, q, u))) * self._s("c", t, q, u)
 
     def c_q(self, t, q, u, la_c):
         return _B("c_q", (self.nla_c, self.nq), self.k) * self._s("c_q", t, q, u, la=la_c)
@@ -675,7 +677,7 @@ class PairContext:
             cs = RectangularCrossSection(0.1, 0.1)
             Q = Rod.straight_configuration(2, 1.0, r_OP0=np.array([0.0, -3.0, 0.0]))
             rod = Rod(cs, Simo1986(np.array([5.0, 1, 1]), np.array([0.5, 2, 2])), 2, Q=Q, q0=Q,
-                      cross_section_inertias=CrossSectionInertias(1.0, np.diag([2e-3, 1e-3, 1e-3])))
+                      cross_section_inertias=CrossSectionInertias(A_rho0=1.0, B_I_rho0=np.diag([2e-3, 1e-3, 1e-3])))
             its = [Item("Rod", rod)]
         else:
             raise KeyError(key)
@@ -727,16 +729,26 @@ class PairContext:
             return AB + [Item(tname, fl.Spring(tpi("B", "A"), 40.0, l_ref=1.2, compliance_form=True), ("A", "B"), _two("B", "A"))]
         if tname == "KelvinVoigt_c":
             return g("P") + g("A") + [Item(tname, fl.KelvinVoigtElement(tpi("P", "A"), 25.0, 3.0, l_ref=1.0, compliance_form=True), ("P", "A"), _two("P", "A"))]
+        def reg_tpi(a, b):
+            # Maxwell / PD / PID read subsystem.qDOF in their assembler_callback: the interaction itself has to be
+            # registered (before them), as test_maxwell_element.py does
+            key = f"tpi_{a}{b}"
+            if key not in self.shared:
+                self.shared[key] = g(a) + g(b) + [Item(key, tpi(a, b), (a, b), _two(a, b))]
+                self.shared[key][-1].obj.name = key
+            return self.shared[key]
+
         if tname == "Maxwell":
-            return AB + [Item(tname, fl.MaxwellElement(tpi("A", "B"), 20.0, 2.0, l_ref=1.0, q0=np.array([0.3])), ("A", "B"),
+            return reg_tpi("A", "B") + [Item(tname, fl.MaxwellElement(o("tpi_AB"), 20.0, 2.0, l_ref=1.0, q0=np.array([0.3])), ("tpi_AB",),
                               lambda L: (cat(L[tname]["q"], L["A"]["q"], L["B"]["q"]), cat(L["A"]["u"], L["B"]["u"])))]
         if tname == "Motor":
             return g("Rev") + [Item(tname, ac.Motor(o("Rev"), lambda t: 2.5 + t), ("Rev",), _two("A", "B"))]
         if tname == "PD":
-            return AB + [Item(tname, ac.PDcontroller(tpi("A", "B"), 3.0, 0.5, np.array([1.0, 0.1])), ("A", "B"), _two("A", "B"))]
+            # (actuators on a TwoPointInteraction are not usable: TwoPointInteraction.W_l is 1-D where W_tau needs (nu, 1))
+            return g("Rev") + [Item(tname, ac.PDcontroller(o("Rev"), 3.0, 0.5, np.array([1.0, 0.1])), ("Rev",), _two("A", "B"))]
         if tname == "PID":
-            return g("P") + g("B") + [Item(tname, ac.PIDcontroller(tpi("P", "B"), 3.0, 0.7, 0.5, lambda t: np.array([1.0 + t, 0.1])), ("P", "B"),
-                                           lambda L: (cat(L[tname]["q"], L["P"]["q"], L["B"]["q"]), cat(L["P"]["u"], L["B"]["u"])))]
+            return g("Rev") + [Item(tname, ac.PIDcontroller(o("Rev"), 3.0, 0.7, 0.5, lambda t: np.array([1.0 + t, 0.1])), ("Rev",),
+                                           lambda L: (cat(L[tname]["q"], L["A"]["q"], L["B"]["q"]), cat(L["A"]["u"], L["B"]["u"])))]
         if tname == "S2P_mu0":
             return g("P") + [Item(tname, co.Sphere2Plane(self.system.origin, o("P"), mu=0.0, r=0.1, e_N=0.5, name="s2p_frictionless"), ("P",), lambda L: (L["P"]["q"], L["P"]["u"]), tags=("s2p",))]
         if tname == "S2P_mu":
@@ -750,3 +762,204 @@ class PairContext:
         if tname == "SynthLink":
             return g("X") + g("A") + [Item(tname, SynthLink(o("X"), o("A")), ("X", "A"), _two("X", "A"))]
         raise KeyError(tname)
+
+
+# ------------------------------------------------------------------------------------------------
+# C16: mechanisms x attachments x contacts x initial states
+# ------------------------------------------------------------------------------------------------
+MECHS = ["free", "pendulum", "double_pendulum", "slider", "pm_fixed_distance", "rigid_pair", "synth"]
+ATTACH = ["none", "gravity", "spring_h", "spring_c", "kelvin_voigt_c", "maxwell", "motor", "pd", "pid"]
+CONTACTS = ["none", "rest_mu0", "stick_mu", "slide_mu", "open_mu", "two_spheres", "accel_plane", "spin_offcentre"]
+INITS = ["rest", "spin"]
+INCONSISTENT = ["joint_velocity", "position_offset", "penetration", "approaching", "s2s_penetration"]
+GRAV = 9.81
+
+
+def _cross(a, b):
+    return np.cross(np.asarray(a, float), np.asarray(b, float))
+
+
+def _rb(mass, theta, r, P, v=None, omega_I=None, name="rigid_body"):
+    from cardillo.discrete import RigidBody
+    from vp.core.alphabet import quat_to_A
+
+    P = np.asarray(P, float) / np.linalg.norm(P)
+    A = quat_to_A(P)
+    u0 = np.zeros(6)
+    if v is not None:
+        u0[:3] = v
+    if omega_I is not None:
+        u0[3:] = A.T @ np.asarray(omega_I, float)
+    return RigidBody(mass, np.diag(theta), q0=np.concatenate([np.asarray(r, float), P]), u0=u0, name=name)
+
+
+def build_c16(case):
+    """-> dict(system, mu (per S2P/S2S contact or None), expect_raise: bool, prepare: callable run after a first
+    assemble for the 'joint_offset' variant)"""
+    from cardillo import System
+    from cardillo.discrete import PointMass
+    from cardillo import constraints as cn, forces as fo, force_laws as fl, actuators as ac, contacts as co
+    from cardillo.interactions import TwoPointInteraction
+
+    seed = case.get("seed", 0)
+    w = weyl(seed, 3, 12)
+    spin = case["init"] == "spin"
+    bad = case.get("bad")
+    system = System()
+    O = system.origin
+    contr = []
+    bodies = []  # (body, mass) for gravity
+    joint = None
+    P1 = np.array([0.9, 0.2 + 0.1 * w[0], -0.3, 0.25])
+    P2 = np.array([0.7, -0.3, 0.2 + 0.1 * w[1], 0.5])
+    ey = np.array([0.0, 1.0, 0.0])
+    w1 = (0.9 + 0.4 * w[2]) if spin else 0.0
+    w2 = (-0.7 + 0.3 * w[3]) if spin else 0.0
+    mech = case["mech"]
+    tip = None
+    if mech == "free":
+        b = _rb(1.3, [0.1, 0.2, 0.3], [0.0, 0.0, 3.0], P1, v=0.5 * w[4:7] if spin else None, omega_I=w[7:10] if spin else None)
+        contr += [b]
+        bodies += [(b, 1.3)]
+        tip = b
+    elif mech == "pendulum":
+        rJ = np.array([0.0, 0.0, 2.5])
+        rC = rJ + np.array([0.6, 0.0, -0.3])
+        vbad = np.array([0.0, 0.3, 0.0]) if bad == "joint_velocity" else 0.0
+        b = _rb(1.3, [0.1, 0.2, 0.3], rC, P1, v=_cross(w1 * ey, rC - rJ) + vbad, omega_I=w1 * ey)
+        joint = cn.Revolute(O, b, axis=1, r_OJ0=rJ, A_IJ0=np.eye(3))
+        contr += [b, joint]
+        bodies += [(b, 1.3)]
+        tip = b
+    elif mech == "double_pendulum":
+        rJ1 = np.array([0.0, 0.0, 2.5])
+        rC1 = rJ1 + np.array([0.6, 0.0, -0.3])
+        rJ2 = rC1 + np.array([0.5, 0.0, -0.4])
+        rC2 = rJ2 + np.array([0.4, 0.0, -0.5])
+        om1, om2 = w1 * ey, (w1 + w2) * ey
+        vJ2 = _cross(om1, rJ2 - rJ1)
+        wbad = np.array([0.2, 0.0, 0.0]) if bad == "joint_velocity" else 0.0
+        b1 = _rb(1.3, [0.1, 0.2, 0.3], rC1, P1, v=_cross(om1, rC1 - rJ1), omega_I=om1, name="link1")
+        b2 = _rb(0.8, [0.05, 0.07, 0.04], rC2, P2, v=vJ2 + _cross(om2, rC2 - rJ2), omega_I=om2 + wbad, name="link2")
+        joint = cn.Revolute(O, b1, axis=1, r_OJ0=rJ1, A_IJ0=np.eye(3), name="joint1")
+        j2 = cn.Revolute(b1, b2, axis=1, r_OJ0=rJ2, A_IJ0=np.eye(3), name="joint2")
+        contr += [b1, b2, joint, j2]
+        bodies += [(b1, 1.3), (b2, 0.8)]
+        tip = b2
+    elif mech == "slider":
+        rC = np.array([0.4, 0.3, 2.8])
+        s = (0.6 + 0.3 * w[2]) if spin else 0.0
+        vbad = np.array([0.0, 0.0, 0.2]) if bad == "joint_velocity" else 0.0
+        b = _rb(1.3, [0.1, 0.2, 0.3], rC, P1, v=np.array([s, 0.0, 0.0]) + vbad)
+        joint = cn.Prismatic(O, b, axis=0, r_OJ0=rC, A_IJ0=np.eye(3))
+        contr += [b, joint]
+        bodies += [(b, 1.3)]
+        tip = b
+    elif mech == "pm_fixed_distance":
+        r = np.array([0.6, 0.3, 2.2])
+        t = _cross(r, [0.0, 0.0, 1.0])
+        v = (0.8 + 0.3 * w[2]) * t / np.linalg.norm(t) if spin else np.zeros(3)
+        if bad == "joint_velocity":
+            v = v + 0.2 * r
+        pm = PointMass(0.9, q0=r, u0=v)
+        joint = cn.FixedDistance(O, pm)
+        joint.name = "fixed_distance"
+        contr += [pm, joint]
+        bodies += [(pm, 0.9)]
+        tip = pm
+    elif mech == "rigid_pair":
+        r1, r2 = np.array([0.0, 0.0, 3.0]), np.array([0.7, 0.2, 3.1])
+        om = w[7:10] if spin else np.zeros(3)
+        v1 = 0.5 * w[4:7] if spin else np.zeros(3)
+        vbad = np.array([0.0, 0.2, 0.0]) if bad == "joint_velocity" else 0.0
+        b1 = _rb(1.3, [0.1, 0.2, 0.3], r1, P1, v=v1, omega_I=om, name="body1")
+        b2 = _rb(0.8, [0.05, 0.07, 0.04], r2, P2, v=v1 + _cross(om, r2 - r1) + vbad, omega_I=om, name="body2")
+        joint = cn.RigidConnection(b1, b2)
+        contr += [b1, b2, joint]
+        bodies += [(b1, 1.3), (b2, 0.8)]
+        tip = b2
+    elif mech == "synth":
+        contr += [Synth(k=seed % 5, with_contact=False)]
+    else:
+        raise KeyError(mech)
+
+    att = case["attach"]
+    if att == "gravity":
+        for b, m in bodies:
+            contr.append(fo.Force(np.array([0.0, 0.0, -m * GRAV]), b, name=f"gravity_{b.name}"))
+    elif att in ("spring_h", "spring_c", "kelvin_voigt_c", "maxwell"):
+        kw = {} if isinstance(tip, PointMass) else {"B_r_CP2": np.array([0.1, -0.05, 0.2])}
+        tpi = TwoPointInteraction(O, tip, **kw)
+        if att == "spring_h":
+            contr.append(fl.Spring(tpi, 30.0, l_ref=1.5, compliance_form=False))
+        elif att == "spring_c":
+            contr.append(fl.Spring(tpi, 30.0, l_ref=1.5, compliance_form=True))
+        elif att == "kelvin_voigt_c":
+            contr.append(fl.KelvinVoigtElement(tpi, 30.0, 4.0, l_ref=1.5, compliance_form=True))
+        else:
+            contr += [tpi, fl.MaxwellElement(tpi, 30.0, 4.0, l_ref=1.5, q0=np.array([0.4]))]
+    elif att == "motor":
+        contr.append(ac.Motor(joint, lambda t: 2.5 + t))
+    elif att == "pd":
+        contr.append(ac.PDcontroller(joint, 3.0, 0.5, np.array([0.7, 0.2])))
+    elif att == "pid":
+        contr.append(ac.PIDcontroller(joint, 3.0, 0.7, 0.5, lambda t: np.array([0.7 + t, 0.2])))
+
+    # ---- contacts on a separate ball (and a second ball on top of it)
+    con = case["contact"]
+    mus = {}
+    if con != "none" or bad in ("penetration", "approaching", "s2s_penetration"):
+        rad, mb = 0.25, 0.6
+        mu = 0.0 if con == "rest_mu0" else 0.3
+        z = rad
+        v = np.zeros(3)
+        ft = np.zeros(3)
+        if con == "open_mu":
+            z = rad + 0.4
+            v = np.array([0.3, -0.2, 0.5])
+        if con == "stick_mu":
+            ft = np.array([0.12, -0.07, 0.0]) * mb * GRAV  # well inside the friction cone even for a rolling sphere
+        if con == "slide_mu":
+            v = np.array([0.7, -0.4, 0.0])
+        if bad == "penetration":
+            z = rad - 0.01
+        if bad == "approaching":
+            v = np.array([0.1, 0.0, -0.3])
+        th = 0.4 * mb * rad**2
+        plane = O
+        kw = {}
+        om = None
+        if con == "accel_plane":
+            # plane accelerating upwards and sideways from rest (zeta_N, zeta_F != 0): the ball has to follow
+            from cardillo.discrete import Frame
+
+            acc = np.array([0.8, -0.5, 2.0])
+            plane = Frame(r_OP=lambda t: 0.5 * acc * t * t, r_OP_t=lambda t: acc * t, r_OP_tt=lambda t: acc, name="moving_plane")
+            contr.append(plane)
+        if con == "spin_offcentre":
+            # contact sphere centred off the centre of mass of a spinning body: centripetal term in zeta_N;
+            # spin about the vertical through the sphere centre P (v_P = 0, contact point at rest)
+            kw = {"B_r_CP": np.array([0.15, 0.1, 0.0])}
+            om = np.array([0.0, 0.0, 1.7])
+            v = -_cross(om, kw["B_r_CP"])
+        ball = _rb(mb, [th, th, th], [2.0, -1.0, z], [1.0, 0, 0, 0], v=v, omega_I=om, name="ball")
+        s2p = co.Sphere2Plane(plane, ball, mu=mu, r=rad, e_N=0.0, e_F=0.0, name="ball_plane", **kw)
+        contr += [ball, fo.Force(np.array([0.0, 0.0, -mb * GRAV]) + ft, ball, name="ball_load"), s2p]
+        mus["ball_plane"] = mu
+        if con == "two_spheres" or bad == "s2s_penetration":
+            z2 = z + 2 * rad - (0.01 if bad == "s2s_penetration" else 0.0)
+            ball2 = _rb(mb, [th, th, th], [2.0, -1.0, z2], [1.0, 0, 0, 0], name="ball2")
+            s2s = co.Sphere2Sphere(ball, ball2, rad, rad, mu=0.3, e_N=0.0, e_F=0.0, name="ball_ball")
+            contr += [ball2, fo.Force(np.array([0.0, 0.0, -mb * GRAV]), ball2, name="ball2_load"), s2s]
+            mus["ball_ball"] = 0.3
+    for c in contr:
+        system.add(c)
+
+    if bad == "position_offset":
+        # library joints re-anchor themselves at every assembly (g(q0) = 0 by construction); a position-level
+        # violation needs a constraint with a fixed reference: the synthetic contribution, moved off its reference
+        x = Synth(k=seed % 5, with_contact=False, name="synth_offset")
+        x.q0 = x._qref + np.array([0.05, -0.02, 0.03])
+        system.add(x)
+    prepare = None
+    return {"system": system, "mus": mus, "expect_raise": bad is not None, "prepare": prepare}
